@@ -28,7 +28,7 @@ async def prepare_resource_template(
     try:
         template = celpy.json_to_cel(template_spec)
         context = celpy.json_to_cel(spec.get("context", {}))
-    except ValueError as err:
+    except (ValueError, RecursionError) as err:
         return PermFail(
             message=f"ResourceTemplate '{cache_key}' contains a value CEL can not represent ({err}).",
             location=f"prepare:ResourceTemplate:{cache_key}",
